@@ -1,6 +1,20 @@
-use delaunay::prelude::*;
+use delaunay::core::delaunay_triangulation::{ConstructionOptions, DelaunayTriangulation, InsertionOrderStrategy};
+use delaunay::core::triangulation::TopologyGuarantee;
+use delaunay::core::vertex::Vertex;
+use delaunay::geometry::kernel::FastKernel;
+use delaunay::geometry::point::Point;
+use delaunay::geometry::traits::coordinate::Coordinate;
 fn main() {
-    let v2 = [vertex!([0.0, 0.0]), vertex!([1.0, 0.0]), vertex!([0.0, 1.0]), vertex!([1.0, 1.5])];
-    let dt: DelaunayTriangulation<_, (), (), 2> = DelaunayTriangulation::new(&v2).unwrap();
-    println!("{}", serde_json::to_string_pretty(&dt).unwrap());
+    let pts: Vec<[f64; 4]> = vec![[0.,2.,0.,0.],[2.,0.,0.,0.],[0.,0.,0.,2.],[2.,1.,-1.,-3.],[-1.,-1.,1.,-1.],[0.,-2.,0.,0.],[-2.,0.,0.,0.],[0.,0.,0.,-2.],[0.,0.,2.,0.],[0.,0.,-2.,0.]];
+    let vs: Vec<Vertex<f64, i32, 4>> = pts.iter().enumerate().map(|(i, p)| Vertex::new_with_uuid(Point::new(*p), uuid::Builder::from_random_bytes((1000u128 + i as u128).to_le_bytes()).into_uuid(), Some(i as i32))).collect();
+    for g in [TopologyGuarantee::Pseudomanifold, TopologyGuarantee::PLManifold] {
+        for order in [InsertionOrderStrategy::Hilbert, InsertionOrderStrategy::Input, InsertionOrderStrategy::Morton, InsertionOrderStrategy::Lexicographic] {
+            let o = ConstructionOptions::default().with_insertion_order(order);
+            let r = DelaunayTriangulation::<FastKernel<f64>, i32, i32, 4>::with_topology_guarantee_and_options(&FastKernel::new(), &vs, g, o);
+            match r {
+                Ok(dt) => println!("{g:?} {order:?}: Ok nv={} nc={} tri.is_valid={:?} dt.validate={:?}", dt.number_of_vertices(), dt.number_of_cells(), dt.as_triangulation().is_valid().map_err(|e| format!("{e}").chars().take(400).collect::<String>()), dt.validate().map_err(|e| format!("{e}").chars().take(160).collect::<String>())),
+                Err(e) => println!("{g:?} {order:?}: Err {}", format!("{e}").chars().take(100).collect::<String>()),
+            }
+        }
+    }
 }
